@@ -59,10 +59,16 @@ def main():
                 print(r.stdout[-1500:])
         finally:
             sh("git", "-C", "/repo", "worktree", "remove", "--force", wt)
-            import glob
-            for d in glob.glob(os.path.join(VERIF, "build", pid + "-*")) + glob.glob(os.path.join(VERIF, "build", "found", pid + "-*")):
+            bname = "%s-%s" % (pid, hashlib.sha256(os.path.abspath(wt).encode()).hexdigest()[:8])
+            for d in (os.path.join(VERIF, "build", bname), os.path.join(VERIF, "build", "found", bname)):
                 shutil.rmtree(d, ignore_errors=True)
-        json.dump(results, open(resp, "w"), indent=1, sort_keys=True)
+        if m["name"] in results.get(pid, {}):
+            import fcntl
+            with open(resp + ".lock", "w") as lk:  # several runners may work on different properties at once
+                fcntl.flock(lk, fcntl.LOCK_EX)
+                cur = json.load(open(resp)) if os.path.exists(resp) else {}
+                cur.setdefault(pid, {})[m["name"]] = results[pid][m["name"]]
+                json.dump(cur, open(resp, "w"), indent=1, sort_keys=True)
 
 
 if __name__ == "__main__":
